@@ -30,12 +30,25 @@ CLAIMED = {
     note=TRUST + 'HMAC unforgeability and CBC confidentiality are ASSUMED (crypto objects are stubs that record/range-check arguments). Not covered: session_cookies::load/save, encrypt side, key derivation, '
          'expiry test in the cookie loader, "reveals neither payload nor equality".',
     design='4 (C05/C06)', technique='cbmc code contracts (dfcc): loop contract for the constant-time compare, ghost-recorded MAC-then-decrypt protocol skeleton'),
+ 'C06': dict(
+    text='Slice: session_sid::valid_sid accepts exactly the language I[0-9a-f]{32} and hands on exactly the 32 digits; new identifiers are 32 lower-case hex digits (tohex exact for 16 bytes); '
+         'protocol skeletons of session_sid::save/load/clear: storage is addressed only with an identifier that passed valid_sid or was freshly generated, a reset removes the old id and issues a fresh one, '
+         'a loaded session past its deadline is removed and not returned, clear removes the stored session and clears the cookie.',
+    note=TRUST + 'Identifiers in the skeletons are abstracted to tags; storage, cookie accessors, time() and the random device are stubs. Not covered: session_interface (values, exposed flags, age, expiration modes), '
+         'session_dual, memory/tcp storages, unpredictability of identifiers, histories over browsers and clocks.',
+    design='4 (C05/C06)', technique='cbmc code contracts (dfcc) on extracted C: exact-language contract, protocol skeletons with ghost tags'),
  'C12': dict(
     text='Slice: multipart_parser::consume (all states) is memory safe for every chunk, keeps a well-formed (state, position) pair across chunks, reports a refusing file sink as no_room_left and never writes after it, '
          'and satisfies the conservation law bytes-in-file + pending partial boundary match == bytes consumed (unbounded, loop contracts); request::on_content_start refuses negative/over-limit Content-Length with 400/413; '
          'parse_form_urlencoded and util::urldecode are memory safe and exact per token. Exact reconstruction / first boundary occurrence / chunking independence: bounded stand-in (body <= 7 bytes).',
     note=TRUST + 'Not covered: part-header parsing (process_header, parse_content_disposition: std::string iterator code), temp-file spill, content filters, the 400/413 logic of on_content_progress.',
     design='4 (C01/C02/C12)', technique='cbmc code contracts (dfcc) + nested loop contracts with a conservation invariant; bounded unwinding for byte-exactness'),
+ 'C13': dict(
+    text='is_file_prefix is proved (unbounded) to match aliases / the document root only on whole path components. normalize_path is decided by a BOUNDED stand-in: for every request path of up to 8 bytes '
+         'its result equals a reference component-stack normalisation (leading /, no ., .., empty component, never above the root). A genuine defect found this way (the / before the component after a .. was lost) is fixed.',
+    note=TRUST + 'The check for path normalisation is a BOUNDED stand-in (two-pointer in-place compaction, outside the reach of cbmc 6.11 loop contracts) and is not counted among the discharged obligations; only is_file_prefix is proved without bound. Not covered: alias loop and realpath/symlink logic of '
+         'check_in_document_root, percent-decoding order, directory listings, file-system behaviour.',
+    design='4 (C13)', technique='cbmc code contract for is_file_prefix; bounded unwinding vs reference normalisation for normalize_path'),
  'C14': dict(
     text='Function contracts written from RFC 3629 and from the property text are enforced by cbmc (dfcc) on the mechanically extracted bodies of '
          'both UTF-8 decoders, utf8::validate, utf8::encode, all 17 single-byte validators and the two filter functions of encoding.cpp, for all inputs '
